@@ -92,6 +92,9 @@ inductive Buf
   /-- one half of `NewCASBufferFromChunkReader(d, r).CloneStream()` (a `casClonedBuffer`); the other
   half is discarded by its owner, so this half sees the shared stream alone -/
   | clone (d : Digest) (s : List Item)
+  /-- `NewValidatedBufferFromReaderAt(r, len data)` where `r` holds `data` followed by `suffix`
+  (objects stored back to back: the backing storage continues with other bytes) -/
+  | readerAt (data suffix : Bytes)
 
 /-- One answer of the scripted `ErrorHandler.OnError`. -/
 inductive Resp
@@ -119,6 +122,7 @@ def content : Buf → Bytes
   | .chunks _ s => (scan s).1.flatten
   | .reader _ s => (scan s).1.flatten
   | .clone _ s => (scan s).1.flatten
+  | .readerAt data _ => data
 
 def piecesF (m : Nat) : Nat → Bytes → List Bytes
   | 0, _ => []
@@ -147,6 +151,10 @@ def cloneChunk : Nat := 65536
 def openChunks (b : Buf) (off m : Nat) : List Bytes × Term :=
   match b with
   | .bytes data =>
+    if off > data.length then ([], .err (.badOffset data.length off))
+    else (pieces m (data.drop off), .eof)
+  | .readerAt data _ =>
+    -- readerBackedChunkReader over io.NewSectionReader(r, off, size - off): stops at the object's end
     if off > data.length then ([], .err (.badOffset data.length off))
     else (pieces m (data.drop off), .eof)
   | .error e => ([], .err e)
@@ -265,6 +273,11 @@ def RSrc.read (n : Nat) : RSrc → Bytes × Status × RSrc
 def openReader (b : Buf) (off : Nat) : RSrc :=
   match b with
   | .bytes data =>
+    if off > data.length then .short [] (.err (.badOffset data.length off))
+    else .short [data.drop off] .eof
+  | .readerAt data _ =>
+    -- io.NewSectionReader(r, off, size - off): exactly the object's bytes from `off` to its size,
+    -- whatever follows the object in the backing storage
     if off > data.length then .short [] (.err (.badOffset data.length off))
     else .short [data.drop off] .eof
   | .error e => .short [] (.err e)
@@ -388,6 +401,7 @@ def casFull (d : Digest) (s : List Item) : Except Err Bytes :=
 /-- `Buffer.ToByteSlice(max)` of an unwrapped buffer. -/
 def baseSlice (max : Nat) : Buf → Except Err Bytes
   | .bytes data => if data.length > max then .error (.tooLarge data.length max) else .ok data
+  | .readerAt data _ => if data.length > max then .error (.tooLarge data.length max) else .ok data
   | .error e => .error e
   | .chunks d s => if d.size > max then .error (.tooLarge d.size max) else casFull d s
   | .reader d s => if d.size > max then .error (.tooLarge d.size max) else casFull d s
@@ -399,6 +413,10 @@ def baseReadAt (off n : Nat) : Buf → Except Err (Bytes × Bool)
   | .bytes data =>
     if off > data.length then .ok ([], true)
     else .ok ((data.drop off).take n, decide ((data.drop off).length < n))
+  | .readerAt data suffix =>
+    -- `b.r.ReadAt(p, off)`: delegated to the backing ReaderAt, not bounded by the object's size
+    if off ≥ (data ++ suffix).length then .ok ([], true)
+    else .ok (((data ++ suffix).drop off).take n, decide (((data ++ suffix).drop off).length < n))
   | .error e => .error e
   | .chunks d s =>
     match casFull d s with
@@ -430,12 +448,13 @@ def retry {α : Type} (f : Buf → Except Err α) : Buf → List Resp → Except
 
 /-- What `WithErrorHandler` returns. -/
 inductive WBuf
-  | plain (b : Buf)               -- the handler is finished already; `b` is `bytes` or `error`
+  | plain (b : Buf)               -- the handler is finished already; `b` is `bytes`, `readerAt` or `error`
   | eh (base : Buf) (d : Digest)  -- `casErrorHandlingBuffer`
 
 /-- `WithErrorHandler(b, handler)`: the buffer, the `OnError` calls made, the `Done` calls made. -/
 def withEH : Buf → List Resp → WBuf × List Err × Nat
   | .bytes data, _ => (.plain (.bytes data), [], 1)
+  | .readerAt data suffix, _ => (.plain (.readerAt data suffix), [], 1)
   | .chunks d s, _ => (.eh (.chunks d s) d, [], 0)
   | .reader d s, _ => (.eh (.reader d s) d, [], 0)
   | .clone d s, _ => (.eh (.clone d s) d, [], 0)
@@ -496,6 +515,10 @@ def plainOp (b : Buf) (op : Op) : Result :=
   | .writer failAt =>
     match b with
     | .bytes data => if failAt = some 0 then .writes [] (some .writer) else .writes [data] none
+    | .readerAt data _ =>
+      -- io.Copy from a SectionReader: no Write at all for an empty object
+      if data = [] then .writes [] none
+      else if failAt = some 0 then .writes [] (some .writer) else .writes [data] none
     | .error e => .writes [] (some e)
     | _ => .unit
   | .readAt off n => .readAt (baseReadAt off n b)
@@ -507,6 +530,7 @@ def plainOp (b : Buf) (op : Op) : Result :=
   | .size =>
     match b with
     | .bytes data => .size (.ok data.length)
+    | .readerAt data _ => .size (.ok data.length)
     | .error e => .size (.error e)
     | _ => .unit
 
